@@ -4,7 +4,7 @@ undo the change. Usage: tools/seed_matrix.py [--tier quick|thorough] [ids...]"""
 import glob, json, os, re, subprocess, sys, time
 V = '/verif'
 tier = 'quick'
-args = sys.argv[1:]
+args = [a for a in sys.argv[1:] if a != '--resume']
 if args and args[0] == '--tier':
     tier = args[1]; args = args[2:]
 dirs = sorted(glob.glob(V + '/seeded/*/'))
@@ -16,6 +16,8 @@ for d in dirs:
     prop = name.split('-')[0]
     mp = os.path.join(d, 'meta.json')
     meta = json.load(open(mp))
+    if '--resume' in sys.argv and isinstance(meta.get('detected_by'), dict) and tier in meta['detected_by']:
+        continue
     patch = os.path.join(d, 'patch.diff')
     if subprocess.run(['git', '-C', '/repo', 'apply', '--check', patch], capture_output=True).returncode != 0:
         meta['applies_to_current_tree'] = False
@@ -25,7 +27,8 @@ for d in dirs:
     subprocess.check_call(['git', '-C', '/repo', 'apply', patch])
     t0 = time.time()
     try:
-        p = subprocess.run([V + '/bin/check', prop, '--tier', tier], capture_output=True, text=True, timeout=3600)
+        p = subprocess.run([V + '/bin/check', prop, '--tier', tier], capture_output=True, text=True, timeout=3600,
+                           env=dict(os.environ, VERIF_EVIDENCE_DIR='/tmp/matrix_evidence'))
         out = p.stdout + p.stderr
         rc = p.returncode
     except subprocess.TimeoutExpired:
